@@ -7,13 +7,13 @@ def cchar(b):
     return "char(%d)" % (b if b < 128 else b - 256)
 
 
-def tu_source(g, gid=None, dflt=(), limits=None, ctx=(), postprec=(), defines=(), noval=(), nvterms=(), tkinds=None):
+def tu_source(g, gid=None, dflt=(), limits=None, ctx=(), postprec=(), defines=(), noval=(), nvterms=(), tkinds=None, alt_nts=()):
     """g: gram.Grammar.  Terms are typed char terms with the observing functor, every rule gets RuleF{index}."""
     gid = gid or g.name
     o = ['#define %s' % d for d in defines] + ['#include "rt.hpp"', 'using namespace ctpg;', 'using vh::Node;', 'namespace G {',
          'using TT = typed_term<char_term, vh::TermF>;', 'using TN = typed_term<char_term, vh::TermFN>;      // value type no_type']
     for i, n in enumerate(g.nts):
-        o.append('nterm<%s> n%d("%s");' % ('no_type' if i in noval else 'Node', i, 'N%d' % i))      # noval: value-less nonterminals
+        o.append('nterm<%s> n%d("%s");' % ('no_type' if i in noval else ('vh::Node2' if i in alt_nts else 'Node'), i, 'N%d' % i))      # noval: value-less; alt_nts: a type constructible from what the functors return
     for i, t in enumerate(g.ts):
         # declarations as a user writes them: default arguments are used whenever precedence / associativity are default
         pr, asc = g.tprec.get(t, 0), g.tassoc.get(t, 0)
